@@ -373,9 +373,9 @@ def wl_containers(ctx, rng, i):
 
 
 WORKLOADS = [
-    Workload("builtin", wl_builtin, quick=lambda: len(TYPES) * 20, thorough=lambda: len(TYPES) * 200),
-    Workload("containers20", wl_containers, quick=lambda: len(SCO20) * 2, thorough=lambda: len(SCO20) * 60),
-    Workload("custom", wl_custom, quick=350, thorough=6000),
+    Workload("builtin", wl_builtin, quick=lambda: len(TYPES) * 20, thorough=lambda: len(TYPES) * 600),
+    Workload("containers20", wl_containers, quick=lambda: len(SCO20) * 2, thorough=lambda: len(SCO20) * 200),
+    Workload("custom", wl_custom, quick=350, thorough=20000),
 ]
 
 
